@@ -203,6 +203,10 @@ func (s *scen) header(b *rBlock) string {
 		s.tieFail("tie-unexpected-refusal", "header refused for a reason outside the model: "+out)
 		return out
 	}
+	if out == "toodeep" && !refTooDeep {
+		s.propFail("refused-fork-within-the-window", fmt.Sprintf("the header of block #%d (height %d) was refused as hooking too deep although it is less than %d below the tip: the node can never follow that branch", b.idx, b.Height, movingCheckpointDepth))
+		return out
+	}
 	s.observe("header", out, rep, full)
 	return out
 }
